@@ -459,6 +459,14 @@ def rule_greedy(ctx: Ctx, which: str) -> None:
                 desc = reverse
             elif norm(first) in (f'-{arg}[1]', f'-1 * {arg}[1]'):
                 desc = not reverse
+            elif call.args and isinstance(call.args[0], ast.Name) and norm(first) == f'{norm(call.args[0])}[{arg}]':
+                desc = reverse          # sorted(costs, key=lambda k: costs[k]): keys ordered by their cost
+        elif key and call.args and isinstance(call.args[0], ast.Name) and norm(key[0]) in (f'{norm(call.args[0])}.__getitem__', f'{norm(call.args[0])}.get'):
+            desc = reverse              # sorted(costs, key=costs.__getitem__)
+        elif key and isinstance(key[0], ast.Call) and norm(key[0].func).split('.')[-1] == 'itemgetter' and key[0].args \
+                and isinstance(key[0].args[0], ast.Constant) and key[0].args[0].value == 1:
+            desc = reverse              # operator.itemgetter(1[, 0]) on (name, cost) items
+            tie = len(key[0].args) > 1
         ctx.check(desc is True, 'DIR-SORT', f, f'{tag}{norm(call)[:80]}: descending cost', norm(call)[:140],
                   f'{tag}{norm(call)[:120]} does not order the items by decreasing cost (key on the cost component with reverse=True, or negated key)', call)
     if checked == 0:
